@@ -14,10 +14,18 @@ import ZV.Base
   * `Obj`/`resetCounters`/`initOn`/`scanSeq`  the counter fields of the `Scanner` VALUE, which survive from one
                     `Scan` call to the next, the prologue of `Scan` that resets them, and consecutive scans on one value
 
+  * `BSt`/`bstep`   the BOUNDED model: the same workers plus the main goroutine of `Scan` as a thread (feeds the
+                    `fetches` channel, closes it, `fetcherWG.Wait(); close(jobs)`, `matcherWG.Wait(); return`), both
+                    channels with a capacity (parameters `capF`, `capJ`; the driver runs it with the capacities
+                    extracted from the source, `ZV.C17.Gen.fetchesCap/jobsCap`), sends block on a full channel,
+                    receives block on an empty open channel
+  * `MainOp`/`mainProgram`  the order of the main goroutine's statements the bounded model implements, compared
+                    with the order extracted from the source (`ZV.C17.Gen.scanOrder`) in `ZV.Props.C17`
+
   What is NOT here: the Go scheduler and memory model (every `step` is atomic; that the counter updates of
-  the real code are atomic is checked by the race detector, not proved), channel capacities (1000 / 100000;
-  the harness runs scans just below, at and above both capacities against the real code), the progress ticker
-  goroutine, logging.
+  the real code are atomic is checked by the race detector, not proved; that every access is THROUGH sync/atomic
+  is a T1 theorem over the extracted access list), the progress ticker goroutine (it only loads
+  `certsProcessed` atomically and writes to `updater`), logging.
 -/
 namespace ZV.C17
 
@@ -349,5 +357,157 @@ def scanSeq (ob : Obj) : List ScanCfg → List (Nat × St)
   | c :: cs =>
     let st := scanOn ob c
     (scanReturn c.start st, st) :: scanSeq { ob with certs := st.counter } cs
+
+/-! ### 6. bounded channels and the main goroutine
+
+```go
+fetches := make(chan fetchRange, 1000)
+jobs := make(chan matcherJob, 100000)
+…start matchers, start fetchers…
+for r := ranges.Front(); r != nil; r = r.Next() { fetches <- r.Value.(fetchRange) }   // MainPc.feed
+close(fetches)
+fetcherWG.Wait()                                                                     // MainPc.waitF
+close(jobs)
+matcherWG.Wait()                                                                     // MainPc.waitM
+…
+return int64(s.opts.StartIndex) + s.certsProcessed, nil                              // MainPc.ret
+```
+`BSt.st.pending` is the content of the `fetches` channel, `BSt.queue` the part of the `ranges` list the main
+goroutine has not sent yet.  The worker steps are the steps of the unbounded model (`stepF`, `stepM`) guarded by
+the blocking conditions of a bounded channel. -/
+
+/-- where the main goroutine of `Scan` is -/
+inductive MainPc where
+  | feed      -- in the loop `fetches <- r` (or about to `close(fetches)`)
+  | waitF     -- `fetches` closed; in `fetcherWG.Wait()`
+  | waitM     -- `jobs` closed; in `matcherWG.Wait()`
+  | ret       -- returned
+  deriving Repr, DecidableEq
+
+structure BSt where
+  capF  : Nat          -- capacity of `fetches`
+  capJ  : Nat          -- capacity of `jobs`
+  queue : List Job     -- ranges not yet sent by the main goroutine
+  pc    : MainPc
+  st    : St           -- `st.pending` = content of the `fetches` channel
+  deriving Repr, DecidableEq
+
+inductive BWorker where
+  | main
+  | f (i : Nat)
+  | m (j : Nat)
+  deriving Repr, DecidableEq
+
+/-- one atomic step of the main goroutine -/
+def bstepMain (b : BSt) : BSt :=
+  match b.pc with
+  | .feed =>
+    match b.queue with
+    | j :: rest =>
+      if b.st.pending.length < b.capF then { b with queue := rest, st := { b.st with pending := b.st.pending ++ [j] } }
+      else b                                              -- `fetches <- r` blocks: channel full
+    | [] => { b with pc := .waitF }                       -- `close(fetches)`
+  | .waitF => if allDone b.st.fs then { b with pc := .waitM } else b          -- `fetcherWG.Wait(); close(jobs)`
+  | .waitM => if b.st.ms.all (fun x => x) then { b with pc := .ret } else b   -- `matcherWG.Wait(); … return`
+  | .ret => b
+
+/-- one atomic step of fetcher `i`: `stepF`, except that receiving from the empty, still open `fetches` channel
+    and sending to the full `jobs` channel block -/
+def bstepF (i : Nat) (b : BSt) : BSt :=
+  match b.st.fs[i]? with
+  | some .idle =>
+    match b.st.pending with
+    | [] => if b.pc = .feed then b else { b with st := stepF i b.st }
+    | _ :: _ => { b with st := stepF i b.st }
+  | some (.send _ _ (_ + 1) _) => if b.st.jobs.length < b.capJ then { b with st := stepF i b.st } else b
+  | _ => { b with st := stepF i b.st }
+
+/-- one atomic step of matcher `j`: receive and process, or return when `jobs` is closed (the main goroutine is
+    past `close(jobs)`) and empty; otherwise blocked -/
+def bstepM (j : Nat) (b : BSt) : BSt :=
+  match b.st.ms[j]? with
+  | some false =>
+    match b.st.jobs with
+    | x :: rest => { b with st := { b.st with jobs := rest, processed := x :: b.st.processed, counter := b.st.counter + 1 } }
+    | [] =>
+      match b.pc with
+      | .feed => b
+      | .waitF => b
+      | _ => { b with st := { b.st with ms := b.st.ms.set j true } }
+  | _ => b
+
+def bstep (w : BWorker) (b : BSt) : BSt :=
+  match w with
+  | .main => bstepMain b
+  | .f i => bstepF i b
+  | .m j => bstepM j b
+
+def brun (b : BSt) : List BWorker → BSt
+  | [] => b
+  | w :: ws => brun (bstep w b) ws
+
+/-- can `w` move? (`false` = returned, or blocked on a channel / wait group) -/
+def benabled (w : BWorker) (b : BSt) : Bool :=
+  match w with
+  | .main =>
+    match b.pc with
+    | .feed => b.queue.isEmpty || b.st.pending.length < b.capF
+    | .waitF => allDone b.st.fs
+    | .waitM => b.st.ms.all (fun x => x)
+    | .ret => false
+  | .f i =>
+    match b.st.fs[i]? with
+    | none => false
+    | some .done => false
+    | some .idle => !b.st.pending.isEmpty || b.pc != .feed
+    | some (.send _ _ (_ + 1) _) => b.st.jobs.length < b.capJ
+    | some _ => true
+  | .m j =>
+    match b.st.ms[j]? with
+    | some false => !b.st.jobs.isEmpty || b.pc == .waitM || b.pc == .ret
+    | _ => false
+
+/-- `Scan` has returned -/
+def bfinished (b : BSt) : Bool := b.pc == .ret
+
+/-- the state of the UNBOUNDED model a bounded state stands for: what is still in the `ranges` list counts as
+    not yet taken -/
+def babs (b : BSt) : St := { b.st with pending := b.st.pending ++ b.queue }
+
+/-- state after `Scan` has built the range list and started the workers, before the first `fetches <- r` -/
+def binitOn (ob : Obj) (capF capJ start stop batch nf nm : Nat) (scriptOf : Nat → List Tok) : BSt :=
+  { capF := capF, capJ := capJ,
+    queue := (ranges start stop batch).map (fun r => ⟨r.1, r.2, scriptOf r.2⟩),
+    pc := .feed,
+    st := { pending := [], fs := List.replicate nf .idle, jobs := [], ms := List.replicate nm false,
+            processed := [], counter := ob.certs, reqlog := [] } }
+
+def binit (capF capJ start stop batch nf nm : Nat) (scriptOf : Nat → List Tok) : BSt :=
+  binitOn Obj.new capF capJ start stop batch nf nm scriptOf
+
+def pcWeight : MainPc → Nat
+  | .feed => 3 | .waitF => 2 | .waitM => 1 | .ret => 0
+
+/-- termination measure of the bounded model -/
+def bmu (b : BSt) : Nat := mu (babs b) + b.queue.length + pcWeight b.pc
+
+def bworkers (b : BSt) : List BWorker :=
+  BWorker.main :: ((List.range b.st.fs.length).map BWorker.f ++ (List.range b.st.ms.length).map BWorker.m)
+
+def broundRobin (b : BSt) : Nat → BSt
+  | 0 => b
+  | fuel + 1 => broundRobin (brun b (bworkers b)) fuel
+
+/-- the main goroutine's synchronisation statements, in the order the bounded model implements them:
+    `binit` is the state after `startFetchers`; `bstepMain` does `feed`* `closeFetches` | `waitFetchers closeJobs` |
+    `waitMatchers ret` -/
+inductive MainOp where
+  | resetCounter | makeFetches | makeJobs | goTicker | startMatchers | startFetchers
+  | feed | closeFetches | waitFetchers | closeJobs | waitMatchers | stopTicker | ret
+  deriving Repr, DecidableEq
+
+def mainProgram : List MainOp :=
+  [.resetCounter, .resetCounter, .resetCounter, .resetCounter, .makeFetches, .makeJobs, .goTicker,
+   .startMatchers, .startFetchers, .feed, .closeFetches, .waitFetchers, .closeJobs, .waitMatchers, .stopTicker, .ret]
 
 end ZV.C17
